@@ -295,6 +295,71 @@ fn run_config(r: &mut Report, exe: &str, work: &str, seed: u64, k: u64, up: &Scr
             Expect::Unjudged => {}
         }
     }
+    // keep-alive connections from an unlisted peer (e.g. a reverse proxy reusing its upstream connection) carrying two
+    // requests with different X-Forwarded-For values: each request is judged on ITS OWN forwarded address
+    let unlisted_srcs: Vec<String> = client_srcs.iter().filter(|c| !cfg.list.contains(c)).cloned().collect();
+    let peer_listed_v6 = v6 && cfg.list.iter().any(|l| l == "::1");
+    if !unlisted_srcs.is_empty() && !peer_listed_v6 {
+        let listed_origin: Option<String> = cfg.list.first().cloned();
+        for pi in 0..4 {
+            let src = unlisted_srcs[rng.usize(unlisted_srcs.len())].clone();
+            let route = *rng.pick(&["/file", "/dir/a.txt", "/redir"]);
+            // (first, second) forwarded origins: unlisted then listed, listed then unlisted, none then listed, listed then none
+            let unl = others[3].clone();
+            let combos: [(Option<String>, Option<String>); 4] = [(Some(unl.clone()), listed_origin.clone()), (listed_origin.clone(), Some(unl.clone())), (None, listed_origin.clone()), (listed_origin.clone(), None)];
+            let (x1, x2) = combos[pi % 4].clone();
+            let mut stream = match connect_from(&src, dst) {
+                Ok(s) => s,
+                Err(_) => continue,
+            };
+            let _ = stream.set_nodelay(true);
+            let mut c = hvcommon::httplab::Conn { s: stream, buf: Vec::new(), eof: false, reset: false };
+            for (qi, x) in [x1.clone(), x2.clone()].iter().enumerate() {
+                let case = Case { src: src.clone(), route, xff: x.iter().cloned().collect(), xff_spaces: false, xff_case: 0 };
+                let want = expect_for(&cfg, &case);
+                let mut req = format!("GET {} HTTP/1.1\r\nHost: hv\r\nConnection: {}\r\n", route, if qi == 0 { "keep-alive" } else { "close" });
+                if let Some(v) = x {
+                    req.push_str(&format!("X-Forwarded-For: {}\r\n", v));
+                }
+                req.push_str("\r\n");
+                if c.s.write_all(req.as_bytes()).is_err() {
+                    r.count("keepalive_pair_second_request_unsendable", 1);
+                    break;
+                }
+                r.eval();
+                r.count("keepalive_pair_requests", 1);
+                let m = match c.read_response(Duration::from_secs(10)) {
+                    Ok(Some(m)) => m,
+                    _ => {
+                        r.count("keepalive_pair_no_response", 1);
+                        break;
+                    }
+                };
+                if !m.body.is_empty() {
+                    hvcommon::httplab::eat_body_crlf(&mut c);
+                }
+                let has_content = [FILE_TAG, DIR_TAG].iter().any(|t| m.body.windows(t.len()).any(|w| w == t.as_bytes()));
+                let ex = J::obj(vec![("mode", J::s(cfg.mode)), ("blacklist", J::arr_s(&cfg.list)), ("cache", J::Bool(cfg.cache)), ("client_source", J::s(&src)), ("connection", J::s(format!("request 1 X-Forwarded-For {:?}, request 2 X-Forwarded-For {:?}, same keep-alive connection", x1, x2))), ("request_index", J::u(qi as u64)), ("expected", J::s(format!("{:?}", want))), ("status", J::u(m.status() as u64)), ("content_leaked", J::Bool(has_content))]);
+                match want {
+                    Expect::Forbidden if m.status() != 403 || has_content => {
+                        if cfg.v6 || is_this_server(dst, &format!("{}-{}", seed, k)) {
+                            r.violation("C19/keep-alive:forwarded-listed-address-served", format!("request #{} of a keep-alive connection, forwarded for the listed address {:?}, was answered {} (content leaked: {}) instead of 403; the other request on the connection was forwarded for {:?}", qi + 1, x, m.status(), has_content, if qi == 0 { &x2 } else { &x1 }), ex, replay.clone());
+                        }
+                        break;
+                    }
+                    Expect::Normal if m.status() == 403 => {
+                        if cfg.v6 || is_this_server(dst, &format!("{}-{}", seed, k)) {
+                            r.violation("C19/keep-alive:unlisted-client-not-served", format!("request #{} of a keep-alive connection (forwarded for {:?}, unlisted) was answered 403; the other request on the connection was forwarded for {:?}", qi + 1, x, if qi == 0 { &x2 } else { &x1 }), ex, replay.clone());
+                        }
+                        break;
+                    }
+                    Expect::Forbidden => r.count("keepalive_pair_answered_403", 1),
+                    Expect::Normal => r.count("keepalive_pair_served", 1),
+                    _ => {}
+                }
+            }
+        }
+    }
     if let Ok(Some(st)) = srv.child.try_wait() {
         r.inconclusive(format!("server process of config {} exited during the run: {:?}", k, st));
     }
